@@ -105,6 +105,8 @@ public:
               arg.append('"');
               p += 2;
             }
+            else
+              arg.append(*(p++)); // a backslash that escapes nothing is an ordinary character
             continue;
           default:
             arg.append(*(p++));
